@@ -36,6 +36,11 @@ CLAIMED = {
             "Every case is compiled by the repository's compiler and played along every choice path (depth <= 6) with and without handler; at every node save_state, save+load into a fresh story, a flow switch, path jumps and host function evaluation are probed. No call may panic; Int + - * and unary minus must print the 32-bit wrapping result; after an error reset_state + the same history replays like the first run; the debug build must produce the same transcript for every case in the debug set.",
             "Trusted: catch_unwind around every host call; the wrapping oracle is i32::wrapping_*; cases that exhaust the step fuel give no verdict. Quick tier: the debug set is all statement cases, all integer-operand expression cases and every 7th other case.",
             "DESIGN.md §5 C04"),
+    "C06": ("fault_enumeration",
+            "bounded exhaustive enumeration of compiler inputs (every single token edit incl. identifier edits, line edit and truncation of corpus sources; all token strings up to length 3-4 over Ink's punctuation/keywords; generated programs; hostile and deeply nested texts), each compiled in a watched worker process; oracles: termination, error line in range, accepted story loads, independent static resolution of every reference, compile-twice identity",
+            "Every input must make the compiler return (a panic is caught in-process, an abort/stack overflow/hang by the parent's per-input watchdog and pinned to the exact input); an error that names a line names an existing line; every accepted story loads with Story::new and every divert, thread start, tunnel, function call, choice target, read count and divert-target literal in it resolves exactly (independent resolver over the JSON document, cross-checked against the runtime's content_at_path); compiling twice gives the same bytes.",
+            "Trusted: the static resolver (calibrated: 0 dangling references on the reference-compiled corpus and on everything the compiler emits for the well-formed pool). Variable diverts are not statically checkable and are skipped. Open findings (validation gaps of this re-implemented compiler) are listed in known_findings.json by (reference kind, shape of the dangling path).",
+            "DESIGN.md §5 C06"),
     "C08": ("model_checking",
             "exhaustive enumeration of pause schedules of continue_async under a virtual clock (hook H3) on the real Story: every single pause position of every line, pause after every step, all pairs per line (thorough); every public method probed at every pause point",
             "For every choice path of every pool program and every line on it: every pause placement in the stated class gives the same lines, tags, choices and the same final globals, counts, callback log (observers, externals bound unsafe and safe) and canonical save as unsliced play; at every pause point each public method is called once: state-changing calls must be refused, and a refused (or harmless) call must leave the rest of the sliced run unchanged.",
